@@ -363,8 +363,8 @@ def fields (p : Icmp6) : Fields :=
   (if hasTarget p.type then [("target_addr", hexStr p.target)] else []) ++
   (if hasDest p.type then [("dest_addr", hexStr p.dest)] else []) ++
   (if p.type == 130 then
-     [("multicast_addr", hexStr p.mcast), ("supress", toString (byteAt p.mlqm 0 / 16 % 2)),
-      ("qrv", toString (byteAt p.mlqm 0 / 32 % 8)), ("qqic", toString (byteAt p.mlqm 1)),
+     [("multicast_addr", hexStr p.mcast), ("supress", toString (byteAt p.mlqm 0 / 8 % 2)),
+      ("qrv", toString (byteAt p.mlqm 0 % 8)), ("qqic", toString (byteAt p.mlqm 1)),
       ("sources", joinWithSep "," (p.sources.map hexStr))]
    else []) ++
   (if p.type == 143 then [("records", joinWithSep "," (p.records.map McastRec.str))] else []) ++
@@ -573,8 +573,8 @@ def applyMld (p : Icmp6) : List String → Option (Out Icmp6)
   | ["multicast_addr", v] => some (do let b ← hexArgN v 16; pure { p with mcast := b })
   | ["multicast_address_records", v] => some (do let rs ← mapOut recordArg (listArg v); pure { p with records := rs })
   | ["sources", v] => some (do let l ← addrListArg v; pure { p with sources := l })
-  | ["supress", v] => some (do let n ← natArg v; pure (p.setMlqmBits 4 1 n))
-  | ["qrv", v] => some (do let n ← natArg v; pure (p.setMlqmBits 5 3 n))
+  | ["supress", v] => some (do let n ← natArg v; pure (p.setMlqmBits 3 1 n))
+  | ["qrv", v] => some (do let n ← natArg v; pure (p.setMlqmBits 0 3 n))
   | _ => none
 
 /-- API calls: MLD fields, extensions, raw options; `none` = not one of these -/
